@@ -42,7 +42,7 @@ class HVal(Annotation):
         return hash(self.k)
 
     def __eq__(self, o):
-        return type(o) is HVal and o.k == self.k
+        return type(o) is HVal and type(o.k) is type(self.k) and o.k == self.k
 
     def __repr__(self):
         return f"HVal({self.k})"
@@ -64,6 +64,11 @@ class HConst(Annotation):
         return f"HConst({self.k})"
 
 
+def _scalar(s):
+    """field string -> the Python scalar it names (alphabet 'mrk': None / True / False next to plain integers)"""
+    return {"None": None, "True": True, "False": False}[s] if s in ("None", "True", "False") else int(s)
+
+
 def mk_ann(a):
     """annotation content value [tag, [field strings]] -> a FRESH annotation object"""
     tag, f = a
@@ -72,7 +77,7 @@ def mk_ann(a):
     if tag == "REG":
         return RegionAnnotation(f[0], int(f[1]))
     if tag == "HVal":
-        return HVal(int(f[0]))
+        return HVal(_scalar(f[0]))
     if tag == "HConst":
         return HConst(int(f[0]))
     raise ValueError("annotation tag " + tag)
